@@ -64,7 +64,7 @@ SPELL = ["plain", "dot", "dotdot", "redundant", "updown", "abs", "abs_redundant"
 FORMS = ["let", "expr", "called_func"]
 PROBES = ["pos_" + p for p in ALL_POS] + ["fail_msg_site", "decoy_value_distinguishable", "three_spelling_same_file", "diamond",
                                          "back_edge_let", "back_edge_expr", "back_edge_called_func", "back_edge_at_position", "back_edge_in_module", "back_edge_in_callback", "cycle_len_1", "cycle_len_2", "cycle_len_3",
-                                         "back_edge_respelled", "include_site", "lib_level_site", "fault_with_decoy", "identical_twin_files", "back_edge_via_hof", "entry_respelled", "cwd_entered_through_symlink", "built_by_ucg_test"]
+                                         "back_edge_respelled", "include_site", "lib_level_site", "fault_with_decoy", "identical_twin_files", "back_edge_via_hof", "entry_respelled", "cwd_entered_through_symlink", "built_by_ucg_test", "same_name_in_importers_directory"]
 DECOY_CWD = "decoy/d1/d2/d3"
 DIRSETS = [["", "lib"], ["", "lib", "lib/deep"], ["app", "lib"], ["app", "lib", "shared/x"], ["", "a", "a/b", "a/b/c"], ["app/svc", "lib", ""],
            ["", "stdcfg"], ["app", "stdx/inner"]]
@@ -168,6 +168,29 @@ def generate(rng, tier, idx):
             files[0]["sites"].append({"pos": rng.choice(["top_let", "paren", "tuple_field"]), "kind": "import", "target": base_idx + 2 + k, "spelling": "plain"})
         world["twins"] = True
         n = len(files)
+    if rng.chance(20):
+        # name collision: a library in another directory imports its sibling with a bare let-import; a file of the same name,
+        # with `id` of another type, sits in the directory of whoever imports that library.  Resolution against anything
+        # but the library's own directory finds the wrong one (and trips a type error or evaluates the intruder).
+        cands = []
+        for i, f in enumerate(files):
+            for s_ in f["sites"]:
+                if s_["kind"] != "import":
+                    continue
+                lib = files[s_["target"]]
+                ld, fd = os.path.dirname(lib["path"]), os.path.dirname(f["path"])
+                if ld != fd:
+                    cands.append((i, s_["target"]))
+        if cands:
+            imp_i, lib_i = rng.choice(cands)
+            ld = os.path.dirname(files[lib_i]["path"])
+            fd = os.path.dirname(files[imp_i]["path"])
+            sib = {"path": (ld + "/collide.ucg").lstrip("/"), "uid": "CS" + rng.token(5), "sites": []}
+            if all(g["path"] != sib["path"] for g in files):
+                files.append(sib)
+                files[lib_i]["sites"].append({"pos": "top_let", "kind": "import", "target": len(files) - 1, "spelling": rng.choice(["plain", "dot"])})
+                world["intruders"] = [(fd + "/collide.ucg").lstrip("/")]
+                n = len(files)
     mode = rng.weighted([("dag", 6), ("cycle", 3), ("fault", 2), ("fail_msg", 1)])
     if mode == "cycle":
         frm = rng.below(n)
@@ -309,7 +332,7 @@ def render_file(world, i, proj_abs, ids, target_value):
         x = escape(target_value(s))
         if s["pos"] == "top_let":
             if s["kind"] == "import":
-                L.append('let s%d = import "%s";\nlet v%d = s%d.id;' % (n, p, n, n))
+                L.append('let s%d = import "%s";\nlet v%d = s%d.id;\nlet typed%d = s%d.id + "-typed";' % (n, p, n, n, n, n))
             else:
                 L.append('let v%d = include str "%s";' % (n, p))
         else:
@@ -391,6 +414,10 @@ def execute(world, sb, res):
         sb.write("proj/" + f["path"], render_file(world, i, proj_abs, ids, target_value))
     for d in world["data"]:
         sb.write("proj/" + d["path"], d["uid"])
+    for k, ip in enumerate(world.get("intruders", [])):
+        if not sb.exists("proj/" + ip):
+            sb.write("proj/" + ip, 'let t = TRACE "decoy-intruder%d";\nlet id = 7;\n' % k)
+            res.probe("same_name_in_importers_directory")
     if world["back_edge"] and world["back_edge"]["form"] == "via_hof":
         sb.write("proj/hof_helper.ucg", "let apply = func (f, x) => f(x);\nlet twice = func (f, x) => f(f(x));\n")
         res.probe("back_edge_via_hof")
@@ -413,7 +440,7 @@ def execute(world, sb, res):
         res.probe("fault_with_decoy")
     # ---- decoy tree: a healthy file wherever a cwd-relative resolution of any site path would land -----
     sb.mkdir(DECOY_CWD)
-    decoy_uids = []
+    decoy_uids = ["decoy-intruder%d" % k for k in range(len(world.get("intruders", [])))]
     site_texts = []
     for i, f in enumerate(files):
         for s in f["sites"]:
@@ -727,6 +754,8 @@ def shrink_candidates(world):
         yield c
     if w["data"] and not any(s["kind"] == "include_str" for f in files for s in f["sites"]):
         yield dict(w, data=[])
+    if w.get("intruders"):
+        yield dict(w, intruders=[])
     # simplify sites
     for i, f in enumerate(files):
         for k, s in enumerate(f["sites"]):
